@@ -92,6 +92,11 @@ func parseLocation(zone string) (*time.Location, error) {
 	if zone == "Local" {
 		return time.Local, nil
 	}
+	// A named zone: the JSON unmarshaller stores its default time zone by name
+	// (e.g. "America/New_York") in the elements that have none of their own.
+	if loc, err := time.LoadLocation(zone); err == nil {
+		return loc, nil
+	}
 	return nil, fmt.Errorf("unable to parse time-zone from '%v'", zone)
 }
 
